@@ -46,6 +46,9 @@ TOK_NARROW = r"""(?P<SPACE>[ ]+)|(?P<COMMENT_EOL>//.*)|(?P<COMMENT_ML>/\*)|(?P<W
           |(?P<SEMI>;)|(?P<STRING>"[^"]*")|(?P<LP>\()|(?P<RP>\))"""
 TOK_NOSPAN = r"""(?P<SPACE>\s+)|(?P<COMMENT_EOL>//.*)|(?P<WORD>[a-z_]+)|(?P<NUM>[0-9]+)
           |(?P<SEMI>;)|(?P<STRING>"[^"]*")|(?P<LP>\()|(?P<RP>\))"""
+TOK_PASCAL = r"""(?P<SPACE>\s+)|(?P<COMMENT_EOL>//.*)|(?P<COMMENT_ML>\(\*)|(?P<WORD>[a-z_]+)|(?P<NUM>[0-9]+)
+          |(?P<SEMI>;)|(?P<STRING>"[^"]*")|(?P<LP>\()|(?P<RP>\))"""
+SPAN_PASCAL = {'COMMENT_ML': r"(?P<END_COMMENT>(\*[^)]|[^*])*)\*\)"}
 SPAN = {'COMMENT_ML': r"(?P<END_COMMENT>(\*[^/]|[^*])*)\*/"}
 SYN = {'COMMENT_EOL': 'COMMENT', 'COMMENT_ML': 'COMMENT', 'SEMI': ';', 'LP': '(', 'RP': ')'}
 SYN_NOSPAN = {'COMMENT_EOL': 'COMMENT', 'SEMI': ';', 'LP': '(', 'RP': ')'}
@@ -85,6 +88,9 @@ CONFIGS = [
          prods=item_prods(['SPACE']), stmt=False, kept={'SPACE'}),
     dict(name="no-span-matcher", tok=TOK_NOSPAN, span=None, syn=SYN_NOSPAN, skip=None, prods=STMT_PRODS,
          stmt=True, kept=set()),
+    # the same opener group name as in the other configurations, another comment syntax
+    dict(name="pascal-comments", tok=TOK_PASCAL, span=SPAN_PASCAL, syn=SYN, skip=None, prods=STMT_PRODS, stmt=True,
+         kept=set(), ml=("(*", "*)")),
     dict(name="only-blanks-are-space", tok=TOK_NARROW, span=SPAN, syn=SYN, skip=None, prods=STMT_PRODS,
          stmt=True, kept=set(), narrow=True),
 ]
@@ -175,7 +181,8 @@ def gen_pieces(rng, cfg):
             elif r < 0.65:
                 out.append(("nl", None, "\n"))
             elif r < 0.85 and cfg["span"]:
-                out.append(("tok", "COMMENT", "/*" + rng.choice(ML_BODIES) + "*/"))
+                opener, closer = cfg.get("ml", ("/*", "*/"))
+                out.append(("tok", "COMMENT", opener + rng.choice(ML_BODIES) + closer))
             elif r < 0.95:
                 out.append(("tok", "COMMENT", "//" + rng.choice(EOL_BODIES)))
                 out.append(("nl", None, "\n"))
@@ -399,6 +406,75 @@ def judge(ctx, cfg_id, pieces, form, case):
         ctx.nontrivial(sig_of([cfg_id, text, form]))
 
 
+# ---------------------------------------------------------------- patterns that look at their surroundings
+# Token patterns may use '^', look-behind and \b: whether a character can start a token then depends on what
+# precedes it ON THE LINE.  Reference: the documented scan - the pattern is matched at the current column of
+# the line (not against a copy of the rest of the line).
+TOK_CTX = r"""(?P<SPACE>\s+)|(?P<COMMENT>^\#.*)|(?P<WORD>[a-z_]+)|(?P<NUM>(?<![a-z_])[0-9]+)|(?P<SEMI>;)
+          |(?P<END>\bend\b)"""
+CTX_LEXEMES = ["ab", "x", "12", "7", ";", "#c", "# x 1", " ", "  ", "end", "_"]
+_CTX = {}
+
+
+def ctx_parser():
+    if not _CTX:
+        _CTX['parser'] = llparser.LLParser(
+            TOK_CTX, productions={'E': [('ITEMS',)], 'ITEMS': [('ITEM', 'ITEMS'), ()],
+                                  'ITEM': [('WORD',), ('NUM',), ('SEMI',), ('END',)]})
+        import re
+        _CTX['ref'] = re.compile(TOK_CTX, re.VERBOSE)
+    return _CTX['parser'], _CTX['ref']
+
+
+def context_pattern_case(ctx, lines, form):
+    parser, ref = ctx_parser()
+    ctx.evaluated()
+    case = {"kind": "context-patterns", "lines": lines, "form": form}
+    exp, bad_line = [], None
+    for ln, line in enumerate(lines, 1):
+        col = 0
+        while col < len(line):
+            m = ref.match(line, col)
+            if m is None or m.end() == col:
+                bad_line = ln
+                break
+            exp.append((m.lastgroup, (ln, col + 1), (ln, m.end() + 1)))
+            col = m.end()
+        if bad_line:
+            break
+    src = "\n".join(lines) if form == "str" else list(lines)
+    try:
+        got = list(parser.tokenizer.tokenize(src, "x"))
+    except llparser.LexicalError as err:
+        ctx.count("context_pattern_lexical_errors")
+        if bad_line is None:
+            ctx.violation("valid-text-rejected", {"type": "LexicalError", "msg": str(err)[:150]}, case)
+        elif err.src_pos.line != bad_line:
+            ctx.violation("lexical-error-names-wrong-line", {"reported": err.src_pos.coords, "bad_line": bad_line}, case)
+        return
+    except llparser.Error as err:
+        ctx.violation("tokenizer-raises", {"type": type(err).__name__, "msg": str(err)[:100]}, case)
+        return
+    if bad_line is not None:
+        ctx.violation("unmatched-character-not-reported", {"bad_line": bad_line, "line": lines[bad_line - 1]}, case)
+        return
+    got.pop()
+    obs = [(t.name, t.start_pos.coords, t.end_pos.coords) for t in got]
+    ctx.count("context_pattern_texts_tokenized")
+    if obs != exp:
+        k = next((i for i, (a, b) in enumerate(zip(obs, exp)) if a != b), min(len(obs), len(exp)))
+        ctx.violation("token-stream-differs", {"index": k, "got": obs[k] if k < len(obs) else None,
+                                               "expected": exp[k] if k < len(exp) else None}, case)
+
+
+def gen_context_lines(rng):
+    lines = []
+    for _ in range(rng.randint(1, 3)):
+        line = "".join(rng.choice(CTX_LEXEMES) for _ in range(rng.randint(1, 6))).rstrip()
+        lines.append(line)
+    return lines
+
+
 def run_case(ctx, cfg_id, pieces, smart=True):
     for form in ("str", "lines", "lazy"):
         case = {"cfg": cfg_id, "pieces": [list(p) for p in pieces], "form": form, "smart": smart}
@@ -408,6 +484,11 @@ def run_case(ctx, cfg_id, pieces, smart=True):
 def run_shard(ctx):
     for i in range(ctx.cases):
         rng = ctx.rng(i)
+        if i % 8 == 7:
+            lines = gen_context_lines(rng)
+            for form in ("str", "lines"):
+                context_pattern_case(ctx, lines, form)
+            continue
         cfg_id = rng.randrange(len(CONFIGS))
         pieces = gen_pieces(rng, CONFIGS[cfg_id])
         if i % 6 == 5:
@@ -433,5 +514,12 @@ def run_shard(ctx):
 
 
 def replay(ctx, case):
+    if case.get("kind") == "context-patterns":
+        context_pattern_case(ctx, case["lines"], case["form"])
+        return
+    _replay(ctx, case)
+
+
+def _replay(ctx, case):
     pieces = [tuple(p) for p in case["pieces"]]
     judge(ctx, case["cfg"], pieces, case["form"], case)
